@@ -160,3 +160,22 @@ def short(data: bytes, n: int = 12) -> str:
     if len(data) <= n:
         return data.hex()
     return f'{data[:n].hex()}..(len={len(data)})'
+
+
+LOWERED_CHOICES = (None, None, None, [2, 9500, 65536], [1, 1, 13], [3, 0, 1000], [950, 1, 1], [950, 9500, 7])
+
+
+def container_class(lowered=None):
+    """The library's Container, or a subclass with lowered internal tuning constants [IN batch size, full-scan threshold, pack
+    copy chunk]: same code, other internal strategy (what > 950 / > 9500 keys or large objects select in production)."""
+    from disk_objectstore import Container  # pylint: disable=import-outside-toplevel
+
+    if not lowered:
+        return Container
+
+    class Lowered(Container):  # pylint: disable=too-few-public-methods
+        _IN_SQL_MAX_LENGTH = lowered[0]
+        _MAX_CHUNK_ITERATE_LENGTH = lowered[1]
+        _CHUNKSIZE = lowered[2] if len(lowered) > 2 else Container._CHUNKSIZE
+
+    return Lowered
